@@ -294,7 +294,8 @@ def run_scenario(scn, *, bus="sync", chooser=None, seed=0, max_steps=None, use_s
 
         # stop condition: n_ticks master ticks completed (t-done of ticker 1), or run ended
         def done_ticks():
-            return sum(1 for e in trace.events if e["k"] == "t-done" and e["tid"] == info.get("master_tid", 1))
+            tid = getattr(getattr(sched, "ticker", None), "_vid", None)
+            return sum(1 for e in trace.events if e["k"] == "t-done" and e["tid"] == tid)
 
         max_real = scn.get("max_real")
         stop_fut = loop.create_future()
